@@ -92,6 +92,53 @@ def obligations(cv):
     return obs
 
 
+def keygen_forced_bits(chk):
+    """Key generation draws each prime with its two top bits and two bottom bits forced to 1 (so that the product of two k-bit primes
+    has exactly 2k bits, and candidates are odd and 3 mod 4).  Decided by partial evaluation of mkprime() with the encoded bit length
+    fixed in each class (top word full / one bit / several bits): the constants OR-ed into the candidate must set exactly those bits."""
+    from .. import oblig, fold, irf as _irf
+    R = 'keygen-forced-bits'
+    n = 0
+    for src, wb, sh in (('src/rsa/rsa_i15_keygen.c', 15, 4), ('src/rsa/rsa_i31_keygen_inner.c', 31, 5)):
+        U = oblig.funit(src)
+        if 'mkprime' not in U.funcs:
+            raise AnalysisBroken('%s: mkprime vanished' % src)
+        F = U.func('mkprime')
+        pe = F.f['params'][2]
+        wbytes = 2 if wb == 15 else 4
+        for words, extra in ((4, 0), (4, 1), (4, 2), (4, 7), (4, wb - 1), (9, 1)):
+            esize = (words << sh) + extra
+            nb = words * wb + extra
+            want = {}
+            for bit in (nb - 1, nb - 2, 0, 1):
+                w = 1 + bit // wb
+                want[w * wbytes] = want.get(w * wbytes, 0) | (1 << (bit % wb))
+            hy = [dict(kind='assume', n=pe['n'], ty=pe['ty'], pred='eq', value=esize, param=True)]
+            Fo = U.optimise('mkprime', hy, ('mkrand', 'miller_rabin', 'br_i15_modpow_opt', 'br_i31_modpow_opt'))
+            got = {}
+            for i in Fo.insts.values():
+                if i['op'] != 'store':
+                    continue
+                b, o = Fo.addr_of(i['ops'][1])
+                if b != {'k': 'a', 'v': 1} or o is None:
+                    continue
+                v = i['ops'][0]
+                if v['k'] == 'i' and Fo.insts[v['v']]['op'] == 'or':
+                    c = [q for q in Fo.insts[v['v']]['ops'] if q['k'] == 'c']
+                    if c:
+                        got[o] = got.get(o, 0) | (c[0]['v'] & ((1 << (8 * wbytes)) - 1))
+            n += 1
+            inst = '%s mkprime: a %d-bit candidate (encoded length %d) gets bits %d, %d, 1, 0 forced' % (src.split('/')[-1], nb, esize, nb - 1, nb - 2)
+            if got == want:
+                chk.ok(R, inst, src)
+            else:
+                chk.violation(R, inst, src, 'constants OR-ed into the candidate (byte offset: mask) are %s, expected %s: primes of this size class may be one bit '
+                              'short, so the modulus may not have the requested length' % ({k: hex(v) for k, v in sorted(got.items())},
+                                                                                         {k: hex(v) for k, v in sorted(want.items())}),
+                              key='%s %s %d' % (R, src, esize))
+    chk.floor('keygen size classes', n, 12)
+
+
 def run(tier):
     chk = report.Check('C10', tier,
                        'Static rejection obligations for the RSA functions of all four implementations (i15, i31, i32, i62), the shared '
@@ -100,7 +147,7 @@ def run(tier):
                        'function\'s IR under the added hypothesis, with a negative control per obligation. Sibling agreement: the same table is '
                        'instantiated for every implementation; a site missing in one of them is reported. NOT decided: that public and private '
                        'are inverses, interoperability of produced values, canonical DigestInfo content beyond the template comparison being '
-                       'enforced, key generation primality.',
+                       'enforced, key generation primality (decided for key generation: the two top and two bottom bits of every prime candidate are forced, per size class).',
                        assumptions=['clang/opt 14 semantics (incl. UB) are trusted', 'host configuration (BR_64) decides which i62 code exists'],
                        trusted=['clang 14', 'opt-14 default<O2>', 'sa/fold.py rewriting'])
     names = ['BR_MAX_RSA_SIZE >> 3', 'BR_MAX_RSA_FACTOR >> 3']
@@ -121,5 +168,6 @@ def run(tier):
         conj.append(('src/rsa/rsa_%s_pub.c' % I, 'br_rsa_%s_public' % I, 'r', 'and', 2, 'parity and range must be conjuncts of the result'))
         conj.append(('src/rsa/rsa_%s_oaep_decrypt.c' % I, 'br_rsa_%s_oaep_decrypt' % I, 'r', 'and', 1, 'unpad verdict'))
     oblig.run_conjuncts(chk, conj, 'rsa-conjunct')
+    keygen_forced_bits(chk)
     chk.floor("C10 obligations", len(chk.obls), 90)
     return chk.finish()
